@@ -27,4 +27,31 @@ REG = {
             "declared degree() is not checked in this run",
         ],
     },
+    "C14": {
+        "families": [("M", "field_kernels")],
+        "explanation": (
+            "Bounded symbolic verification of mechanisms (DESIGN.md section 5, C14). Engine M translates the rustc MIR "
+            "(dumped from /repo's working tree in this run, overflow checks on) of the Goldilocks kernels into SMT-LIB over "
+            "mathematical integers with explicit wrap-around and asks, for ALL operand representations (full 2^64 / 2^96 / "
+            "2^128 / i64 ranges, non-canonical included): result congruent to the mathematical value mod p and < 2^64; no "
+            "checked-arithmetic overflow; no argument of plonky2_util::assume() false; reduce160's documented precondition "
+            "at each call site. Symbolic u64*u64 products are opaque and shared with the specification. The translator is "
+            "validated on every run against the natively compiled functions; sat models are replayed natively."),
+        "trusted_base": TB_COMMON + ["Intel SDM model of the `add; sbb` inline asm in add_no_canonicalize_trashing_input",
+                                     "MIR-to-SMT translator mir/translate.py (validated per run against native execution on boundary + seeded random operands)"],
+        "assumptions": ["AVX2/AVX-512 packed fields are outside (intrinsics not encodable)",
+                        "generic extension-field algebra (Ob14.5/14.6) is decided by engine S when its family is registered"],
+    },
+    "C13": {
+        "families": [("M", "poseidon_kernels")],
+        "explanation": (
+            "Bounded symbolic verification of mechanisms (DESIGN.md section 5, C13), integer-kernel part: the MIR of the "
+            "Goldilocks frequency-domain mds_layer (mds_multiply_freq, fft/ifft blocks), the generic mds_row_shf / default "
+            "mds_layer, mds_partial_layer_fast (u160 accumulator, add_u160_u128, reduce_u160) and constant_layer is encoded "
+            "over integers; for all 12xu64 states (non-canonical included) each equals its algebraic definition mod p and no "
+            "i64/u64/u128 overflow or assume() violation is possible."),
+        "trusted_base": TB_COMMON + ["MIR-to-SMT translator mir/translate.py (validated per run against native execution)"],
+        "assumptions": ["SIMD Poseidon (hash/arch) and Keccak are outside",
+                        "that the round constants are the published ones is not checked"],
+    },
 }
